@@ -328,6 +328,14 @@ def run(run):
                               "carries on (retries the bring-up / answers the request) with a PIN state it must not use")
     run.floor("R5", "call sites from which the stop signal can come", n_sites, 3)
 
+    # "... and then holds exactly that PIN": what the device acknowledged is the PIN that was generated, byte for byte (rule of C18 under the prefix N.)
+    from . import c18
+    run.rid_prefix = "N."
+    try:
+        c18.pin_relay(run, "R6")
+    finally:
+        run.rid_prefix = ""
+
     # ---------------------------------------------------------------- R6
     run.rule("R6", "Typestate: once the device acknowledged the new PIN (true edge of new_pin), no path "
              "may reach a statement that discards the only copy of it (abort_change: _new_pin = None) "
